@@ -698,25 +698,23 @@ Lemma join_fields_on_event ev eid :
   let f := fields_of_event ev eid in
   ef_type f = m_room_member -> ef_membership f = Some s_join ->
   ef_state_key f = Some (ef_sender f) -> ef_sender f <> [] ->
-  jget_str (bs "type") ev = Some m_room_member /\
-  (exists content, jget (bs "content") ev = Some content /\
-                   jget (bs "membership") content = Some (JStr s_join)) /\
-  (exists sender, sender <> [] /\ jget_str (bs "sender") ev = Some sender /\
-                  jget (bs "state_key") ev = Some (JStr sender)).
+  jget_last_str (bs "type") ev = Some m_room_member /\
+  (exists content, jget_last (bs "content") ev = Some content /\
+                   string_member (bs "membership") content = Some s_join) /\
+  (exists sender, sender <> [] /\ jget_last_str (bs "sender") ev = Some sender /\
+                  jget_last (bs "state_key") ev = Some (JStr sender)).
 Proof.
   unfold fields_of_event. cbn [ef_type ef_membership ef_state_key ef_sender].
   intros Ht Hm Hk Hs.
   split; [|split].
-  - destruct (jget_str (bs "type") ev) as [t|]; [subst t; reflexivity|discriminate].
-  - destruct (jget (bs "state_key") ev) as [[| | |sk| |]|]; try discriminate.
-    destruct (jget (bs "content") ev) as [content|].
-    + exists content. split; [reflexivity|].
-      destruct (jget (bs "membership") content) as [[| | |m| |]|]; try discriminate.
-      inversion Hm; subst. reflexivity.
+  - destruct (jget_last_str (bs "type") ev) as [t|]; [subst t; reflexivity|discriminate].
+  - destruct (jget_last (bs "state_key") ev) as [[| | |sk| |]|]; try discriminate.
+    destruct (jget_last (bs "content") ev) as [content|].
+    + exists content. split; [reflexivity|exact Hm].
     + simpl in Hm. discriminate.
-  - destruct (jget_str (bs "sender") ev) as [sender|]; [|contradiction Hs; reflexivity].
+  - destruct (jget_last_str (bs "sender") ev) as [sender|]; [|contradiction Hs; reflexivity].
     exists sender. split; [exact Hs|]. split; [reflexivity|].
-    destruct (jget (bs "state_key") ev) as [[| | |sk| |]|]; try discriminate.
+    destruct (jget_last (bs "state_key") ev) as [[| | |sk| |]|]; try discriminate.
     inversion Hk; subst. reflexivity.
 Qed.
 
